@@ -44,7 +44,7 @@ ASSUMPTIONS = [
     "(precondition 'uniform'), hypergraphs without any node",
 ]
 
-KINDS = ("ints", "strs", "ints", "strs", "range")
+KINDS = ("ints", "strs", "range", "ints", "strs", "floats")
 WEIGHTS = st.sampled_from([1, 2, 3, 5, 9, 300, 1000, 0.5, 2.25])
 
 # --------------------------------------------------------------------------
